@@ -48,7 +48,11 @@ _CMP = {
 }
 
 
-class Sym:
+class Abstract:
+    """base of rule-defined abstract values whose (Python-implemented) attributes and methods the folded code may use"""
+
+
+class Sym(Abstract):
     """a record of named abstract values standing for an object of the model (rule-built; attribute access folds to the field)"""
 
     def __init__(self, **kw: Any):
@@ -118,12 +122,16 @@ class Folder:
         if isinstance(e, ast.Name):
             return self._resolve(e)
         if isinstance(e, ast.Attribute):
-            if d is not None and d.split(".")[0] in self.env and isinstance(self.env[d.split(".")[0]], Sym):
+            if d is not None and d.split(".")[0] in self.env and isinstance(self.env[d.split(".")[0]], Abstract):
                 base = self.fold(e.value)
-                if isinstance(base, Sym) and hasattr(base, e.attr):
+                if isinstance(base, Abstract) and hasattr(base, e.attr) and not e.attr.startswith("__"):
                     return getattr(base, e.attr)
                 if isinstance(base, tuple) and hasattr(base, "_fields") and e.attr in base._fields:
                     return getattr(base, e.attr)
+                if d.startswith("self.") and d.count(".") == 1 and self.cls is not None and self.repo is not None:
+                    v = self.repo.lookup_class_attr(self.cls, e.attr)
+                    if v is not None:
+                        return Folder({}, self.repo, self.cls.module, self.cls, self.hook).fold(v)
                 raise Unfoldable(unparse(e))
             if d is not None:
                 # self.CONST -> class constant through the MRO
@@ -137,7 +145,7 @@ class Folder:
                 return getattr(base, e.attr)
             if isinstance(base, dict) and e.attr in base:
                 return base[e.attr]
-            if isinstance(base, Sym) and hasattr(base, e.attr):
+            if isinstance(base, Abstract) and hasattr(base, e.attr) and not e.attr.startswith("__"):
                 return getattr(base, e.attr)
             raise Unfoldable(unparse(e))
         if isinstance(e, ast.BinOp):
@@ -217,6 +225,36 @@ class Folder:
             return self._comprehension(e)
         if isinstance(e, ast.Lambda):
             return _Lambda(e, dict(self.env))
+        raise Unfoldable(unparse(e))
+
+    def _iter_arg(self, a: ast.expr) -> Any:
+        v = self.fold(a)
+        return frozenset(v) if isinstance(v, (set, frozenset)) else v
+
+    def _call_starred(self, e: ast.Call) -> Any:
+        """f(*xs): supported for set().union(*sets), max/min/sum-like builtins and abstract methods"""
+        vals: list = []
+        for a in e.args:
+            if isinstance(a, ast.Starred):
+                vals.extend(list(self.fold(a.value)))
+            else:
+                vals.append(self.fold(a))
+        if e.keywords:
+            raise Unfoldable(unparse(e))
+        if isinstance(e.func, ast.Attribute):
+            recv = self.fold(e.func.value)
+            m = e.func.attr
+            if isinstance(recv, Abstract) and callable(getattr(recv, m, None)) and not m.startswith("__"):
+                return getattr(recv, m)(*vals)
+            if isinstance(recv, (set, frozenset)) and m in ("union", "intersection"):
+                return getattr(frozenset(recv), m)(*[frozenset(v) for v in vals])
+        name = dotted(e.func)
+        if name in ("max", "min"):
+            return (max if name == "max" else min)(*vals)
+        if name in ("itertools.product",):
+            import itertools
+
+            return list(itertools.product(*[list(v) for v in vals]))
         raise Unfoldable(unparse(e))
 
     def _bind_target(self, t: ast.AST, v: Any, env: Dict[str, Any]) -> None:
@@ -324,6 +362,28 @@ class Folder:
     def _call(self, e: ast.Call) -> Any:
         name = dotted(e.func)
         args = e.args
+        if any(isinstance(a, ast.Starred) for a in args):
+            return self._call_starred(e)
+        if isinstance(e.func, ast.Attribute) and not e.func.attr.startswith("__"):
+            # a method of a rule-defined abstract value, or a non-mutating method of a folded list / set / dict / str
+            try:
+                recv = self.fold(e.func.value)
+            except Unfoldable:
+                recv = NotImplemented
+            if isinstance(recv, Abstract) and callable(getattr(recv, e.func.attr, None)):
+                kw = {k.arg: self.fold(k.value) for k in e.keywords if k.arg}
+                return getattr(recv, e.func.attr)(*[self.fold(a) for a in args], **kw)
+            if recv is not NotImplemented and not e.keywords:
+                m = e.func.attr
+                if isinstance(recv, (frozenset, set)) and m in ("union", "intersection", "difference", "issubset", "issuperset", "isdisjoint", "copy"):
+                    return getattr(frozenset(recv), m)(*[self._iter_arg(a) for a in args])
+                if isinstance(recv, (list, tuple)) and m in ("index", "count", "copy"):
+                    return getattr(list(recv), m)(*[self.fold(a) for a in args])
+                if isinstance(recv, dict) and m in ("get", "keys", "values", "items"):
+                    r = getattr(recv, m)(*[self.fold(a) for a in args])
+                    return list(r) if m != "get" else r
+                if isinstance(recv, str) and m in ("split", "rsplit", "startswith", "endswith", "count", "replace", "join", "isdigit", "isascii", "isdecimal"):
+                    return getattr(recv, m)(*[self.fold(a) for a in args])
         if e.keywords and name not in ("int",):
             raise Unfoldable(unparse(e))
         if isinstance(e.func, ast.Attribute) and e.func.attr == "bit_length" and not args:
